@@ -1421,3 +1421,63 @@ func runHandledMeansFiled(p *Program, c *Collector, h HandledSpec) {
 		c.Ob(h.Props, "E7.handled-means-filed", key, Discharged, "true is reported only after the record was filed", p.FuncPos(fn), true)
 	}
 }
+
+// ---------------------------------------------------------------------------------------------
+// last one wins: inside a loop over a list, a value computed from the element is assigned to one and the same field of a
+// package-level record on every iteration — a slot for one where the source has several (an interface that extends three
+// interfaces kept the last). An append, or a store under a key that depends on the element, keeps them all.
+func runLastOneWins(p *Program, c *Collector, a FuncRuleSpec) {
+	n := 0
+	for _, fn := range expandFuncs(p, c, a.Funcs, a.Props...) {
+		if len(fn.Blocks) == 0 {
+			continue
+		}
+		sf := newSymFn(p, fn, 0)
+		sf.inlineOK = func(*ssa.Function) bool { return false }
+		k := 0
+		for _, e := range sf.emissions() {
+			if !strings.HasPrefix(e.target, "globalstore:") || e.elem == nil || len(e.elem.Kids) != 1 {
+				continue
+			}
+			h, _ := sf.loopOf(e.block)
+			if h == nil {
+				continue
+			}
+			name := sf.binderName(h)
+			v := e.elem.Kids[0]
+			if has, _ := v.hasUnknown(); has {
+				continue
+			}
+			if !v.mentions(name) {
+				continue // the same value every time
+			}
+			// a store under a test of the element or of its position picks one element (the pair named "value", the parameter
+			// annotated @RequestBody, the first of the list): a selection, not a slot filled once per element
+			if rel := sf.pathCondFrom(h, e.block, sf.headers[h]); !isTrue(rel) {
+				continue
+			}
+			// an accumulation reads the field it writes (x.F = x.F + …, append): not a slot
+			tgt := strings.TrimPrefix(e.target, "globalstore:")
+			field := tgt[strings.LastIndex(tgt, ".")+1:]
+			acc := false
+			v.walk(func(x *Sym) {
+				if x.Op == "field" && x.Name == field {
+					acc = true
+				}
+				if x.Op == "append" {
+					acc = true
+				}
+			})
+			if acc {
+				continue
+			}
+			k++
+			n++
+			key := "lastonewins:" + p.FuncKey(fn) + " " + shortFn(tgt)
+			c.Ob(a.Props, "E7.last-one-wins", key, Violated, a.What+": "+shortFn(p.FuncKey(fn))+" assigns "+shortFn(tgt)+" once per element of "+clip(sf.loopCollection(h).String(), 60)+": the field has room for one, every element but the last is lost", e.pos, false)
+		}
+	}
+	if n == 0 {
+		c.Ob(a.Props, "E7.last-one-wins", "lastonewins:"+strings.Join(a.Funcs, ","), Discharged, a.What+": no field of a package-level record is overwritten once per element of a list", "", true)
+	}
+}
